@@ -9,6 +9,9 @@ OPS = '{"tgopen", "close", "spawn", "yield", "wait", "raise"}'
 OPSS = '{"tgopen", "close", "spawn", "start", "started", "yield", "wait", "raise"}'
 OPSX = '{"tgopen", "close", "spawn", "yield", "wait", "raise", "open", "cancel"}'
 FAMILY = family("C02", [
+    # start() racing with a failing sibling (exception handed over through the start future)
+    ModelCfg("c02-n3o3e0-start", consts(3, 3, 0, '{"tgopen", "spawn", "start", "yield", "raise"}', env="{}"),
+             emit=True, check=False, max_scenarios=8000),
     ModelCfg("c02-n2o3e1", consts(2, 3, 1, OPS), emit=True, check=False, max_scenarios=4000),
     ModelCfg("c02-n3o3e1", consts(3, 3, 1, OPS), tiers=("quick",), check=False, simulate=1500),
     ModelCfg("c02-n3o3e1s", consts(3, 3, 1, OPSS), tiers=("quick",), check=False, simulate=1500),
